@@ -765,3 +765,116 @@ pub fn lattice(input: &str, out: &str) {
     let mut fo = fs::File::create(out).expect("out");
     writeln!(fo, "{}", json!({ "C14": r })).unwrap();
 }
+
+// ------------------------------------------------------------------------------------------
+// C12 off the grids: recorded pairs for spec/PairsJudge.tla
+// ------------------------------------------------------------------------------------------
+fn rounded_items<S: Shape + serde::Serialize>(s: &S) -> Value {
+    let j = serde_json::to_value(s).unwrap_or(Value::Null);
+    let mut out = vec![];
+    if let Some(items) = j["items"].as_array() {
+        for it in items {
+            if let Some(st) = it.get("start") {
+                out.push(json!([(st[0].as_f64().unwrap() * 1000.).round() as i64, (st[1].as_f64().unwrap() * 1000.).round() as i64]));
+            } else if let Some(p) = it.get("position") {
+                out.push(json!([(p[0].as_f64().unwrap() * 1000.).round() as i64, (p[1].as_f64().unwrap() * 1000.).round() as i64,
+                                (it["radius"].as_f64().unwrap() * 1000.).round() as i64]));
+            }
+        }
+    }
+    json!(out)
+}
+
+fn rigid(theta: f64, mirror: bool, tx: f64, ty: f64) -> Matrix3<f64> {
+    let (c, s) = (theta.cos(), theta.sin());
+    let sg = if mirror { -1. } else { 1. };
+    Matrix3::new(sg * c, -sg * s, tx, s, c, ty, 0., 0., 1.)
+}
+
+fn record_pairs<S: Shape + Intersect + serde::Serialize>(
+    name: &str,
+    kind: &str,
+    shape: &S,
+    rng: &mut rand_pcg::Pcg64Mcg,
+    count: usize,
+    out: &mut Vec<String>,
+) {
+    use rand::Rng;
+    let r = shape.enclosing_radius();
+    for _ in 0..count {
+        let t1 = rigid(rng.gen::<f64>() * 2. * PI, rng.gen::<bool>(), 0., 0.);
+        let dir = rng.gen::<f64>() * 2. * PI;
+        let th2 = rng.gen::<f64>() * 2. * PI;
+        let m2 = rng.gen::<bool>();
+        let at = |d: f64| rigid(th2, m2, d * dir.cos(), d * dir.sin());
+        // where the implementation's answer flips along this direction
+        let hit = |d: f64| {
+            shape
+                .transform(&Transform2::from(t1))
+                .intersects(&shape.transform(&Transform2::from(at(d))))
+        };
+        let (mut lo, mut hi) = (0.05 * r, 2.3 * r);
+        for _ in 0..40 {
+            let mid = 0.5 * (lo + hi);
+            if hit(mid) {
+                lo = mid;
+            } else {
+                hi = mid;
+            }
+        }
+        let contact = 0.5 * (lo + hi);
+        let ds = [
+            contact - 0.3 * r,
+            contact - 0.05,
+            contact - 0.012,
+            contact + 0.012,
+            contact + 0.05,
+            contact + 0.4 * r,
+            rng.gen::<f64>() * 2.3 * r,
+        ];
+        for d in ds.iter() {
+            if *d <= 0. {
+                continue;
+            }
+            let t2 = at(*d);
+            let mut answers = vec![];
+            let mut p = Value::Null;
+            let mut q = Value::Null;
+            for (i, mo) in motions().iter().enumerate() {
+                let a = shape.transform(&Transform2::from(mo * t1));
+                let b = shape.transform(&Transform2::from(mo * t2));
+                if i == 0 {
+                    p = rounded_items(&a);
+                    q = rounded_items(&b);
+                }
+                answers.push(a.intersects(&b));
+                answers.push(b.intersects(&a));
+            }
+            out.push(json!({"shape": name, "kind": kind, "p": p, "q": q, "answers": answers, "d": d}).to_string());
+        }
+    }
+}
+
+pub fn pairs_obs(out: &str, thorough: bool, seed: u64) {
+    std::panic::set_hook(Box::new(|_| {}));
+    let mut rng = crate::suites::seeded(seed, 1212);
+    let per = if thorough { 400 } else { 60 };
+    let mut lines: Vec<String> = vec![json!({"ev": "header"}).to_string()];
+    for n in [3usize, 4, 5, 6, 7, 8, 12].iter() {
+        let sh = LineShape::polygon(*n).unwrap();
+        record_pairs(&format!("polygon{}", n), "poly", &sh, &mut rng, per, &mut lines);
+    }
+    for rad in [vec![1., 0.6, 1., 0.6], vec![0.8, 1., 0.8, 1.], vec![1., 0.9, 0.8, 0.9, 1., 0.9]].iter() {
+        let sh = LineShape::from_radial("radial", rad.clone()).unwrap();
+        record_pairs(&format!("radial{:?}", rad), "poly", &sh, &mut rng, per, &mut lines);
+    }
+    record_pairs("circle", "discs", &MolecularShape2::circle(), &mut rng, per, &mut lines);
+    for (r, a, d) in [(0.637556, 120., 1.), (0.5, 180., 1.), (0.7, 90., 1.2), (1., 60., 0.8), (0.3, 150., 2.)].iter() {
+        let sh = MolecularShape2::from_trimer(*r, *a, *d);
+        record_pairs(&format!("trimer({},{},{})", r, a, d), "discs", &sh, &mut rng, per, &mut lines);
+    }
+    let mut fo = fs::File::create(out).expect("out");
+    for l in lines {
+        writeln!(fo, "{}", l).unwrap();
+    }
+}
